@@ -52,13 +52,6 @@ Definition wrap_uncoded (e : errv) : errv :=
   | _ => Coded code_unknown'        (* NewError(CodeUnknown, err) *)
   end.
 
-(* makeRequest's mapping of an error returned by HTTPClient.Do *)
-Definition wrap_do_error (e : errv) : errv :=
-  match wrap_ctx e with
-  | Coded c => Coded c
-  | _ => Coded code_unavailable
-  end.
-
 (* wrapIfContextDone: an uncoded error met while the context is done is the context's error *)
 Definition wrap_done (c : option ctxkind) (e : errv) : errv :=
   match wrap_ctx e with
@@ -66,16 +59,25 @@ Definition wrap_done (c : option ctxkind) (e : errv) : errv :=
   | y => match c with Some k => Coded (ctx_code k) | None => y end
   end.
 
+(* makeRequest's mapping of an error returned by HTTPClient.Do: the context is asked first
+   (wrapIfContextDone: a transport may report the context's cause, or anything else, once the
+   context has ended), what is still uncoded becomes unavailable *)
+Definition wrap_do_error (c : option ctxkind) (e : errv) : errv :=
+  match wrap_done c e with
+  | Coded x => Coded x
+  | _ => Coded code_unavailable
+  end.
+
 (* C15: context errors are classified as canceled / deadline_exceeded by every wrapper chain *)
 Lemma classification_lemma : forall k,
   wrap_ctx (CtxErr k) = Coded (ctx_code k) /\
   wrap_uncoded (CtxErr k) = Coded (ctx_code k) /\
-  wrap_do_error (CtxErr k) = Coded (ctx_code k) /\
+  (forall c, wrap_do_error c (CtxErr k) = Coded (ctx_code k)) /\
   wrap_uncoded (wrap_ctx (CtxErr k)) = Coded (ctx_code k).
 Proof. intro k. repeat split; reflexivity. Qed.
 
 Lemma wrap_preserves_coded : forall c,
-  wrap_ctx (Coded c) = Coded c /\ wrap_uncoded (Coded c) = Coded c /\ wrap_do_error (Coded c) = Coded c.
+  wrap_ctx (Coded c) = Coded c /\ wrap_uncoded (Coded c) = Coded c /\ (forall x, wrap_do_error x (Coded c) = Coded c).
 Proof. intro c. repeat split; reflexivity. Qed.
 
 (* a handler that returns its context's error conveys the same classification
@@ -176,7 +178,7 @@ Definition step (s : dstate) (e : ev) : dstate * outcome :=
     else
       let s1 :=
         match r with
-        | DoErr x => set_error s (wrap_do_error x)
+        | DoErr x => set_error s (wrap_do_error (ctx s) x)
         | DoResp v bidi1 =>
           let s' := mkD (started s) (watching s) (returned s) (ready s) (derr s) true (pipe_r_closed s) (pipe_w_closed s) (body_closes s) (ctx s) in
           match v with
